@@ -201,33 +201,78 @@ func opFileData(args []string) string {
 	return "ok " + H(f.Attr) + " " + H(f.FData)
 }
 
-var tmpDir string
-
-func tmpName() string {
-	if tmpDir == "" {
-		tmpDir = filepath.Join(os.TempDir(), "verif-c19-exec")
-		if err := os.MkdirAll(tmpDir, 0o755); err != nil {
-			panic(err)
+// writeBack calls Image.WriteFile on a path in a fresh directory under the worker's
+// TMPDIR (removed before returning) and returns what the file on disk holds
+// afterwards.  old == nil: the path does not exist before the call; otherwise it is
+// an existing file with exactly that content (possibly empty).
+func writeBack(i *cbfs.Image, old []byte) ([]byte, error) {
+	dir, err := os.MkdirTemp("", "verif-c19-")
+	if err != nil {
+		return nil, err
+	}
+	defer os.RemoveAll(dir)
+	p := filepath.Join(dir, "out.rom")
+	if old != nil {
+		if err := os.WriteFile(p, old, 0o644); err != nil {
+			return nil, err
 		}
 	}
-	return filepath.Join(tmpDir, fmt.Sprintf("img-%d", os.Getpid()))
-}
-
-func writeBack(i *cbfs.Image) ([]byte, error) {
-	p := tmpName()
-	defer os.Remove(p)
 	if err := i.WriteFile(p, 0666); err != nil {
-		return nil, err
+		return nil, fmt.Errorf("WriteFile: %w", err)
 	}
 	return os.ReadFile(p)
 }
 
+// the five situations of the destination path, by name; content derived from the image
+var destKinds = []string{"fresh", "empty", "same-size", "larger", "shorter"}
+
+func destContent(kind string, img []byte, r *Rng) []byte {
+	other := func(n int) []byte {
+		b := make([]byte, n)
+		for k := range b {
+			b[k] = byte(0xA5 ^ k)
+			if k < len(img) {
+				b[k] = ^img[k] // differs from the image at every position
+			}
+		}
+		return b
+	}
+	switch kind {
+	case "fresh":
+		return nil
+	case "empty":
+		return []byte{}
+	case "same-size":
+		return other(len(img))
+	case "larger":
+		return other(len(img) + 1 + r.Pick(0, 1, 15, 4096, len(img)))
+	case "shorter":
+		if len(img) < 2 {
+			return []byte{}
+		}
+		return other(1 + r.Intn(len(img)-1))
+	}
+	panic("bad destination kind")
+}
+
+func oldArg(old []byte) string {
+	if old == nil {
+		return "none"
+	}
+	return H(old)
+}
+
+// writeback <img> <old>: old = "none" (fresh path) or the previous content of the file
 func opWriteBack(args []string) string {
 	i, err := cbfs.NewImage(bytes.NewReader(UnH(args[0])))
 	if err != nil {
 		return ErrClass(err, errTable)
 	}
-	b, err := writeBack(i)
+	var old []byte
+	if args[1] != "none" {
+		old = UnH(args[1])
+	}
+	b, err := writeBack(i, old)
 	if err != nil {
 		return "harness-error " + err.Error()
 	}
@@ -331,13 +376,19 @@ func pArchive(args []string) string {
 			}
 		}
 	}
-	// unmodified image is written back byte-identical
-	b, err := writeBack(i)
-	if err != nil {
-		return "FAIL writeback-error " + err.Error()
-	}
-	if !bytes.Equal(b, img) {
-		return "FAIL writeback-differs"
+	// unmodified image is written back byte-identical, whatever the destination held
+	wr := NewRng(uint64(len(img))*2654435761 + uint64(aoff))
+	for _, kind := range destKinds {
+		b, err := writeBack(i, destContent(kind, img, wr))
+		if err != nil {
+			return "FAIL writeback-error dest=" + kind + " " + err.Error()
+		}
+		if len(b) != len(img) {
+			return fmt.Sprintf("FAIL writeback-length dest=%s disk=%d image=%d", kind, len(b), len(img))
+		}
+		if !bytes.Equal(b, img) {
+			return "FAIL writeback-differs dest=" + kind
+		}
 	}
 	return "ok"
 }
@@ -620,7 +671,11 @@ func gen(r *Rng, tier string, emit Emit) {
 			emit("C", "filedata", H(img), I(int64(rr.Range(-1, len(a)))))
 		}
 		if it%4 == 0 {
-			emit("C", "writeback", H(img))
+			// every situation of the destination: fresh path, empty file, same size with
+			// other content, larger file, shorter file
+			for _, kind := range destKinds {
+				emit("C", "writeback", H(img), oldArg(destContent(kind, img, rr)))
+			}
 		}
 
 		// compressed content: LZMA / LZ4 with the matching attribute, any file type
